@@ -162,6 +162,35 @@ structure Res where
   log : List Att
   deriving Inhabited
 
+inductive AttOut where
+  | done (out : Outcome)       -- the function returns / an exception leaves the loop
+  | again (e : Exc)            -- the loop goes on to the next `i`
+  deriving DecidableEq, Repr, Inhabited
+
+/-- one iteration of the retry loop after `_enter()`: `try: result = func(); commit(); return result` /
+    `except: ...` / `finally: db_session.__exit__(exc_type, exc, tb)` -/
+def attempt (env : Env) (o : Opts) (run : Nat → St → St × Outcome) (i : Nat) (s1 : St) : St × AttOut × Att :=
+  let b := run i s1
+  let c : St × Option Exc := match b.2 with
+    | .ret => commit env b.1
+    | .raise e => (b.1, some e)
+  let a : Att := ⟨s1, b.1.pending, b.2, c.2⟩
+  match c.2 with
+  | none =>
+    let x := exit env o none c.1                           -- `return result` → `finally: __exit__(None, None, None)`
+    (x.1, .done (match x.2 with | none => .ret | some e' => .raise e'), a)
+  | some e =>
+    match doRetry env o e with
+    | .yes =>
+      let x := exit env o (some e) (rollback c.1)          -- `rollback()`, then `finally: __exit__(exc_type, exc, tb)`
+      (x.1, (match x.2 with | some e' => .done (.raise e') | none => .again e), a)
+    | .no =>
+      let x := exit env o (some e) c.1                     -- `raise`, then `finally: __exit__(...)`
+      (x.1, .done (.raise (x.2.getD e)), a)
+    | .raises e' =>
+      let x := exit env o (some e) c.1                     -- the callable raised inside `except:`
+      (x.1, .done (.raise (x.2.getD e')), a)
+
 /-- `for i in range(db_session.retry+1): ...` followed by `reraise(exc_type, exc, tb)` -/
 def loop (env : Env) (o : Opts) (run : Nat → St → St × Outcome) : Nat → Nat → Option Exc → St → Res
   | 0, _, last, s => ⟨s, .raise (last.getD .unbound), []⟩
@@ -169,30 +198,11 @@ def loop (env : Env) (o : Opts) (run : Nat → St → St × Outcome) : Nat → N
     match enter o s with
     | .error e => ⟨s, .raise e, []⟩
     | .ok s1 =>
-      let b := run i s1
-      let c : St × Option Exc := match b.2 with
-        | .ret => commit env b.1
-        | .raise e => (b.1, some e)
-      let a : Att := ⟨s1, b.1.pending, b.2, c.2⟩
-      match c.2 with
-      | none =>
-        let x := exit env o none c.1                         -- `return result` → `finally: __exit__(None, None, None)`
-        ⟨x.1, (match x.2 with | none => .ret | some e' => .raise e'), [a]⟩
-      | some e =>
-        match doRetry env o e with
-        | .yes =>
-          let x := exit env o (some e) (rollback c.1)        -- `rollback()`, then `finally: __exit__(exc_type, exc, tb)`
-          match x.2 with
-          | some e' => ⟨x.1, .raise e', [a]⟩
-          | none =>
-            let r := loop env o run fuel (i + 1) (some e) x.1
-            ⟨r.st, r.out, a :: r.log⟩
-        | .no =>
-          let x := exit env o (some e) c.1                   -- `raise`, then `finally: __exit__(...)`
-          ⟨x.1, .raise (x.2.getD e), [a]⟩
-        | .raises e' =>
-          let x := exit env o (some e) c.1                   -- the callable raised inside `except:`
-          ⟨x.1, .raise (x.2.getD e'), [a]⟩
+      match attempt env o run i s1 with
+      | (s2, .done out, a) => ⟨s2, out, [a]⟩
+      | (s2, .again e, a) =>
+        let r := loop env o run fuel (i + 1) (some e) s2
+        ⟨r.st, r.out, a :: r.log⟩
 
 /-- `db_session(**o)(func)(...)` for a plain function: `_wrap_function.new_func` -/
 def decorated (env : Env) (o : Opts) (run : Nat → St → St × Outcome) (s : St) : Res :=
